@@ -388,7 +388,41 @@ func runBatch(repo, pkgDir, pkgName string, imports map[string]string, sig *type
 		for _, v := range tu {
 			lits = append(lits, v.goLit)
 		}
-		fmt.Fprintf(&cases, "\t\tfunc(out map[string]interface{}) {\n\t\t\t%s%s\n\t\t\t%s\n\t\t},\n", assign, callOf(lits), strings.Join(record, "\n\t\t\t"))
+		// ground facts of the uninterpreted parsing vocabulary at the concrete strings and integers of this
+		// run (arguments before the call, so that they are there when it panics; results after it)
+		var pre, post []string
+		pi := 0
+		if sig.Recv() != nil {
+			pi = -1
+		}
+		for k := range tu {
+			var pt types.Type
+			if pi+k < 0 {
+				pt = sig.Recv().Type()
+			} else if pi+k < sig.Params().Len() {
+				pt = sig.Params().At(pi + k).Type()
+			}
+			if pt == nil || isMathInt(pt) {
+				continue
+			}
+			if b, ok := types.Unalias(pt).Underlying().(*types.Basic); ok {
+				if b.Info()&types.IsString != 0 {
+					pre = append(pre, "govcFactsStr(out, string("+lits[k]+"))")
+				} else if b.Info()&types.IsInteger != 0 {
+					pre = append(pre, "govcFactsInt(out, fmt.Sprint("+lits[k]+"))")
+				}
+			}
+		}
+		for k := 0; k < sig.Results().Len(); k++ {
+			if b, ok := types.Unalias(sig.Results().At(k).Type()).Underlying().(*types.Basic); ok {
+				if b.Info()&types.IsString != 0 {
+					post = append(post, fmt.Sprintf("govcFactsStr(out, string(r%d))", k))
+				} else if b.Info()&types.IsInteger != 0 {
+					post = append(post, fmt.Sprintf("govcFactsInt(out, fmt.Sprint(r%d))", k))
+				}
+			}
+		}
+		fmt.Fprintf(&cases, "\t\tfunc(out map[string]interface{}) {\n\t\t\t%s\n\t\t\t%s%s\n\t\t\t%s\n\t\t\t%s\n\t\t},\n", strings.Join(pre, "; "), assign, callOf(lits), strings.Join(record, "\n\t\t\t"), strings.Join(post, "; "))
 	}
 	var imp []string
 	for path, alias := range imports {
@@ -402,8 +436,101 @@ import (
 	"fmt"
 	"os"
 	"testing"
+	v_big "math/big"
+	v_math "cosmossdk.io/math"
+	v_sdk "github.com/cosmos/cosmos-sdk/types"
+	v_chan "github.com/cosmos/ibc-go/v8/modules/core/04-channel/types"
 %s
 )
+
+// the uninterpreted parsing vocabulary of the specification library, evaluated by what it stands for
+func govcSmtStr(s string) string {
+	b := []byte{'"'}
+	for i := 0; i < len(s); i++ {
+		c := s[i]
+		switch {
+		case c == '"':
+			b = append(b, '"', '"')
+		case c == '\\':
+			b = append(b, []byte("\\u{5c}")...)
+		case c >= 32 && c < 127:
+			b = append(b, c)
+		default:
+			b = append(b, []byte(fmt.Sprintf("\\u{%%x}", c))...)
+		}
+	}
+	return string(append(b, '"'))
+}
+
+func govcSmtInt(n *v_big.Int) string {
+	if n.Sign() < 0 {
+		return "(- " + new(v_big.Int).Neg(n).String() + ")"
+	}
+	return n.String()
+}
+
+func govcAdd(out map[string]interface{}, f string) {
+	l, _ := out["facts"].([]string)
+	out["facts"] = append(l, f)
+}
+
+func govcFactsInt(out map[string]interface{}, dec string) {
+	n, ok := new(v_big.Int).SetString(dec, 10)
+	if !ok {
+		return
+	}
+	govcAdd(out, "(assert (= (dec "+govcSmtInt(n)+") "+govcSmtStr(n.String())+"))")
+	govcAdd(out, "(assert (= (intstr "+govcSmtInt(n)+") "+govcSmtStr(n.String())+"))")
+}
+
+func govcFactsStr(out map[string]interface{}, s string) {
+	q := govcSmtStr(s)
+	digits := func(t string) bool {
+		if t == "" {
+			return false
+		}
+		for i := 0; i < len(t); i++ {
+			if t[i] < '0' || t[i] > '9' {
+				return false
+			}
+		}
+		return true
+	}
+	u := digits(s)
+	govcAdd(out, fmt.Sprintf("(assert (= (atouOK %%s) %%v))", q, u))
+	if u {
+		n, _ := new(v_big.Int).SetString(s, 10)
+		govcAdd(out, "(assert (= (atouVal "+q+") "+govcSmtInt(n)+"))")
+		govcFactsInt(out, n.String())
+	}
+	t := s
+	if len(t) > 0 && (t[0] == '+' || t[0] == '-') {
+		t = t[1:]
+	}
+	i := digits(t)
+	govcAdd(out, fmt.Sprintf("(assert (= (atoiOK %%s) %%v))", q, i))
+	if i {
+		n, _ := new(v_big.Int).SetString(s, 10)
+		govcAdd(out, "(assert (= (atoiVal "+q+") "+govcSmtInt(n)+"))")
+		govcFactsInt(out, n.String())
+	}
+	func() {
+		defer func() { _ = recover() }()
+		v, ok := v_math.NewIntFromString(s)
+		govcAdd(out, fmt.Sprintf("(assert (= (okInt %%s) %%v))", q, ok))
+		if ok {
+			govcAdd(out, "(assert (= (parseInt "+q+") "+govcSmtInt(v.BigInt())+"))")
+		}
+	}()
+	func() {
+		defer func() { _ = recover() }()
+		govcAdd(out, fmt.Sprintf("(assert (= (validDenom %%s) %%v))", q, v_sdk.ValidateDenom(s) == nil))
+	}()
+	func() {
+		defer func() { _ = recover() }()
+		govcAdd(out, fmt.Sprintf("(assert (= (isChannelID %%s) %%v))", q, v_chan.IsValidChannelID(s)))
+	}()
+}
 
 // generated by govc: %s
 func TestGovcBatch(t *testing.T) {
@@ -488,16 +615,18 @@ func dropQuantified(prefix string) string {
 func multiCheckBudget(prefix string, blocks []string, timeoutS, budgetS int) []string {
 	var b strings.Builder
 	b.WriteString(strings.Replace(prefix, "(declare-fun mulI (Int Int) Int)", "(define-fun mulI ((a Int) (b Int)) Int (* a b))", 1))
-	for _, bl := range blocks {
+	for k, bl := range blocks {
 		b.WriteString("(push 1)\n")
 		b.WriteString(bl)
-		b.WriteString("\n(check-sat)\n(pop 1)\n")
+		fmt.Fprintf(&b, "\n(check-sat)\n(pop 1)\n(echo \"#end %d\")\n", k)
 	}
 	f, err := os.CreateTemp("/var/tmp", "govc-multi-*.smt2")
 	if err != nil {
 		return nil
 	}
-	defer os.Remove(f.Name())
+	if os.Getenv("VERIF_KEEPMULTI") == "" {
+		defer os.Remove(f.Name())
+	}
 	f.WriteString(b.String())
 	f.Close()
 	of, err := os.CreateTemp("/var/tmp", "govc-multi-*.out")
@@ -520,18 +649,45 @@ func multiCheckBudget(prefix string, blocks []string, timeoutS, budgetS int) []s
 	}
 	of.Close()
 	out, _ := os.ReadFile(of.Name())
-	var ans []string
+	// one answer per block, delimited by the echo markers (an error inside a block must not shift the rest)
+	ans := make([]string, len(blocks))
+	for k := range ans {
+		ans[k] = "unknown"
+	}
+	cur := ""
 	for _, l := range strings.Split(string(out), "\n") {
 		l = strings.TrimSpace(l)
-		if l == "sat" || l == "unsat" || l == "unknown" || l == "timeout" {
-			ans = append(ans, l)
+		switch {
+		case l == "sat" || l == "unsat" || l == "unknown" || l == "timeout":
+			cur = l
+		case strings.HasPrefix(l, "(error"):
+			cur = "error"
+		case strings.HasPrefix(l, "#end ") || strings.HasPrefix(l, "\"#end "):
+			k, err := strconv.Atoi(strings.Trim(strings.TrimPrefix(strings.Trim(l, "\""), "#end "), "\" "))
+			if err == nil && k >= 0 && k < len(ans) && cur != "" {
+				ans[k] = cur
+			}
+			cur = ""
 		}
-	}
-	for len(ans) < len(blocks) {
-		ans = append(ans, "unknown")
 	}
 	return ans
 }
+
+// factsOf: the ground vocabulary facts the harness recorded for one run
+func factsOf(obs map[string]interface{}) []string {
+	l, _ := obs["facts"].([]interface{})
+	var out []string
+	seen := map[string]bool{}
+	for _, x := range l {
+		if f, ok := x.(string); ok && !seen[f] {
+			seen[f] = true
+			out = append(out, f)
+		}
+	}
+	return out
+}
+
+var evaluableVocab = map[string]bool{"atoiOK": true, "atoiVal": true, "atouOK": true, "atouVal": true, "dec": true, "intstr": true, "okInt": true, "parseInt": true, "validDenom": true, "isChannelID": true}
 
 type conformReport struct {
 	Spec         string   `json:"spec"`
@@ -543,6 +699,7 @@ type conformReport struct {
 	Inconclusive int      `json:"clause_checks_inconclusive"`
 	Mismatches   []string `json:"mismatches,omitempty"`
 	Imprecise    []string `json:"imprecise,omitempty"`
+	Suspects     []string `json:"suspects,omitempty"` // not refuted, over vocabulary evaluated only at the strings seen: for review
 	Skipped      string   `json:"skipped,omitempty"`
 }
 
@@ -558,6 +715,16 @@ func (e *Engine) uninterpretedSyms() map[string]bool {
 		}
 	}
 	return u
+}
+
+// onlyEvaluable: every uninterpreted symbol of the formula is one the harness evaluates
+func onlyEvaluable(formula string, unint map[string]bool) bool {
+	for _, tok := range strings.FieldsFunc(formula, func(c rune) bool { return c == '(' || c == ')' || c == ' ' || c == '\n' }) {
+		if unint[tok] && !evaluableVocab[tok] {
+			return false
+		}
+	}
+	return true
 }
 
 func mentions(formula string, syms map[string]bool) bool {
@@ -745,6 +912,7 @@ func (e *Engine) conformPrepare(key string, ct *Contract, max int) (*conformRepo
 			for k, v := range tu {
 				pins = append(pins, v.pin(params[k].t))
 			}
+			pins = append(pins, factsOf(obs[ti])...)
 			if _, panicked := obs[ti]["panic"]; panicked {
 				rep.Panicked++
 				var conds []string
